@@ -5,6 +5,7 @@ specification.
 -/
 import Rsbdd.Driver.DotCases
 import Rsbdd.Model.Gen.Queens
+import Rsbdd.Model.Gen.QueensText
 import Rsbdd.Model.Gen.Clique
 import Rsbdd.Model.Gen.Sudoku
 import Rsbdd.Model.Gen.Graph
@@ -52,6 +53,14 @@ def sameConstraints (fuel : Nat) (m f : Formula) : Bool :=
 /-- `queens|n|exit class|tree (variable id = k of v_k) or BIG or ERR|solver rows or -` -/
 def handleC15 (fields : List String) : Verdict :=
   match fields with
+  | ["text", n, version, bytes] =>
+    -- the bytes of the output against the text model (`Queens.text`): a recorded tie, not a verdict —
+    -- the property is decided on the parsed tree; `Thm/C15T` speaks about the current code while they agree
+    match n.toNat?, unhexStr version, unhexStr bytes with
+    | some n, some v, some real =>
+      let same := real.toList == Queens.text v n
+      { modelOk := true, nontrivial := same, info := some (if same then "text-model.identical" else "text-model.differs") }
+    | _, _, _ => Verdict.badLine "unreadable text line"
   | ["queens", n, cls, ast, solver] =>
     match n.toNat? with
     | none => Verdict.badLine "bad n"
